@@ -130,6 +130,8 @@ type W struct {
 	// Deferred: the delayed tasks the server has scheduled and the harness has not run yet (the HLS
 	// directory cleanup of an ended stream); they never run by themselves in a world
 	Deferred []DeferredTask
+	// OriginEager: what an RTMP origin serving a pull sends in the same segment as NetStream.Play.Start
+	OriginEager []ref.Msg
 	// HlsClock: HLS sub-sessions live on this world's clock (requests through HlsGet, the expiry sweep at
 	// every Tick); otherwise on real time, on which they never expire within a run
 	HlsClock bool
